@@ -25,6 +25,8 @@ KNOWN = {
                                 'the enclosing function\'s local instead of the module global',
     'C05-class-comprehension': 'a read inside a comprehension in a class body resolves to class-body bindings, which Python hides from '
                                'the comprehension (a comprehension is a function-like scope nested in the class)',
+    'C05-augassign-del-only': 'a name whose only bindings in a function are augmented assignments (x += 1) or del statements is a local for the '
+                              'compiler but not for supp (no visit_AugAssign / visit_Delete): its reads resolve to outer bindings',
     'C05-nonlocal-binding': 'a binding made under a nonlocal declaration is owned by the inner function instead of the enclosing '
                             'function that owns the variable (reads then resolve to the inner function)',
 }
@@ -70,6 +72,20 @@ def extra_programs(rng):
                 lines.append(pad + 'print([%s for %s in %s])' % (rng.choice(names), rng.choice(names), rng.choice(names)))
         lines.append('print(a, b, c)')
         out.append('\n'.join(lines) + '\n')
+    # one binding construct at a time: a function whose ONLY binding of x is of that kind, an outer x, reads before and after
+    kinds = [
+        'x = 1', 'x: int = 1', 'x += 1', 'x, y = c', '[x, *y] = c', 'for x in c:\n        pass', 'for (x, y) in c:\n        pass',
+        'with c as x:\n        pass', 'with c as (x, y):\n        pass', 'try:\n        pass\n    except E as x:\n        pass',
+        'import x', 'import os as x', 'from os import path as x', 'from os import x', 'def x():\n        pass', 'class x:\n        pass',
+        'async def x():\n        pass', 'if (x := c):\n        pass', 'while c:\n        x = 1', 'c = [0 for _ in c if (x := 1)]',
+        'try:\n        x = 1\n    finally:\n        pass', 'if c:\n        pass\n    else:\n        x = 1', 'del x',
+    ]
+    for kind in kinds:
+        body = '    print(x)\n    %s\n    print(x)\n    return x\n' % kind
+        out.append('x = 0\ndef f(c):\n' + body)
+        out.append('x = 0\nclass K:\n    def m(self, c):\n    ' + body.replace('\n    ', '\n        ').rstrip(' ') )
+        out.append('def outer(x):\n    def f(c):\n    ' + body.replace('\n    ', '\n        ').rstrip(' ') + '    return f\n')
+        out.append('x = 0\nf = lambda c, x=x: x\ndef g(c):\n    h = lambda: x\n' + body)
     out.append('x = 0\ndef P():\n    x = 1\n    def S():\n        global x\n        return x\n    return S\n')
     out.append('def P():\n    x = 1\n    def S():\n        nonlocal x\n        x = 2\n        return x\n    return S, x\n')
     out.append('x = 5\ndef f(ys):\n    r = [x for x in ys]\n    return x, r\n')
@@ -79,7 +95,8 @@ def extra_programs(rng):
 
 def corpus(check):
     quick = check.tier == 'quick'
-    progs = [('special%d' % i, s) for i, s in enumerate(extra_programs(check.rng))]
+    progs = [('special%d' % i, s) for i, s in enumerate(extra_programs(check.rng)) if pygen.valid(s)]
+    check.extra['special_programs'] = len(progs)
     for i in range(150 if quick else 2500):
         g = pygen.Gen(check.rng, depth=check.rng.choice([3, 4]), loops=0.5)
         src = g.program()
@@ -144,6 +161,13 @@ def classify(read_scope, name, alt_obj, comp_names, node, builder):
         if not inside:
             return 'C05-comp-var-leak'
     s = read_scope
+    o = s
+    while o is not None:
+        if name in o.bound:
+            if name in o.weak and name not in o.strong and name not in o.globals and name not in o.nonlocals:
+                return 'C05-augassign-del-only'
+            break
+        o = o.parent
     a = s
     while a is not None:
         if a.kind == 'comp':
